@@ -25,6 +25,7 @@ import ast
 import inspect
 import io
 import itertools
+import json
 import linecache
 import os
 import re
@@ -45,8 +46,11 @@ ASSUMPTIONS = [
     "compiles from the canonical (unindented, undecorated) text assembled by the generator",
     "decorators applied to function objects are identity decorators (or modelx.defcells itself)",
     "globals used by the bodies: one sibling cells g(x) and one reference r of the cells' space",
-    "a creation rejected up front with modelx's explicit ValueError ('more than 1 lambda expressions "
-    "found', ...) is counted as an unsupported form, not as a violation",
+    "a lambda OBJECT whose source line holds a second (nested) lambda is rejected by modelx up front with "
+    "its explicit ValueError 'more than 1 lambda expressions found'; this one form is counted as "
+    "unsupported, not as a violation; every other failure to create the cells is a violation",
+    "in the spaces used for the idempotence and doc-replacement clauses the name g is bound to the same "
+    "sibling cells through a reference",
     "source comparison after rename / doc replacement is token based: blank lines and line-break "
     "layout are not compared, every other token (comments included) is",
     "ASCII texts only",
@@ -70,7 +74,7 @@ DEF_FORMS = ["src-def", "src-deco1", "src-deco2", "src-decoml",
              "obj-def", "obj-deco1", "obj-deco2", "obj-decoml", "obj-defcells"]
 LAM_FORMS = ["src-lambda", "src-assign", "src-call", "obj-assign", "obj-call"]
 FORMS = DEF_FORMS + LAM_FORMS
-NAMES = ["auto", "other", "same"]            # auto: name taken from the function; other: cells 'c' from def f
+NAMES = ["auto", "other"]         # auto: cells named after the function; other: cells 'c' from 'def f'/lambda
 PARAMS = ["p1", "p0", "p2", "pa"]
 DOCSTRINGS = ["none", "one", "multi", "quote", "raw", "single"]
 COMMENTS = ["none", "lead", "defline", "lastline", "after", "after0", "inner0"]
@@ -82,11 +86,9 @@ OBJ_INDENTS = ["0", "4", "8", "tab", "0t"]
 DIMS = [("form", FORMS), ("name", NAMES), ("params", PARAMS), ("doc", DOCSTRINGS),
         ("comment", COMMENTS), ("body", BODIES), ("indent", INDENTS)]
 
-FAMILY = {"src-def": "src-def", "src-deco1": "src-deco", "src-deco2": "src-deco", "src-decoml": "src-deco",
-          "obj-def": "obj-def", "obj-deco1": "obj-deco", "obj-deco2": "obj-deco", "obj-decoml": "obj-deco",
-          "obj-defcells": "obj-defcells",
-          "src-lambda": "src-lambda", "src-assign": "src-lambda-embedded", "src-call": "src-lambda-embedded",
-          "obj-assign": "obj-lambda", "obj-call": "obj-lambda"}
+# clause key of the form-dependent clauses: how the text reaches modelx x what it defines.  The
+# decorator / embedding variant is NOT part of the clause: it stays visible in the shrunk case.
+FAMILY = {f: f[:3] + ("-lambda" if f in LAM_FORMS else "-def") for f in FORMS}
 
 SIG = {"p0": "()", "p1": "(x)", "p2": "(x, y=1)", "pa": "(x: int, y: float = 1.5) -> int"}
 LAM_SIG = {"p0": "lambda:", "p1": "lambda x:", "p2": "lambda x, y=1:"}
@@ -129,8 +131,7 @@ PREAMBLE = [
     "def ident(fn, *rest):",
     "    return fn",
 ]
-EXPLICIT_REJECTIONS = ("more than 1 lambda expressions found", "no lambda expression found",
-                       "invalid function or lambda definition")
+EXPLICIT_REJECTION = "more than 1 lambda expressions found"
 
 
 class Skip(Exception):
@@ -205,8 +206,6 @@ def build(case):
         else:
             deco_lines = {"def": [], "deco1": ["@deco"], "deco2": ["@deco", "@deco_args(1, k=2)"],
                           "decoml": ["@deco_args(1,", "           k=2)"]}[form[4:]]
-        if form == "obj-defcells" and name == "same":
-            raise Skip("defcells-name-mode")
         header = "def f%s:" % SIG[params]
         dlines = [l.replace("@", unit if body == "oneline" else "") for l in DOCSTRING_LINES[doc]] \
             if doc != "none" else []
@@ -260,8 +259,6 @@ def build(case):
         kind, fname = "def", "f"
         if name == "auto":
             cname, pass_name = "f", None
-        elif name == "same":
-            cname, pass_name = "f", "f"
         else:
             cname, pass_name = "c", "c"
         if form == "obj-defcells":
@@ -487,7 +484,10 @@ def check_text(case, tmpdir, docs, only=None):
         try:
             c = w.create(s)
         except ValueError as e:
-            if str(e) in EXPLICIT_REJECTIONS:
+            # the one form modelx declares unsupported: a lambda OBJECT whose source line holds a
+            # second lambda (inspect cannot tell them apart).  Anything else is a failed capture.
+            if str(e) == EXPLICIT_REJECTION and T["via"] == "obj" and T["kind"] == "lambda" \
+                    and case["body"] == "nlambda":
                 return "unsupported", [], None, 0
             bad("capture", "capture-raises[%s]:ValueError" % fam, "ValueError: " + str(e)[:120], "a cells")
             return "checked", viols, digest(["capture-raises", "ValueError"]), 0
@@ -675,23 +675,35 @@ def check_text(case, tmpdir, docs, only=None):
 
 def tier_dims(tier):
     if tier == "quick":
-        return {"name": ["auto", "other"], "indent": ["0", "4", "tab"],
+        return {"form": ["src-def", "src-deco2", "src-decoml", "obj-def", "obj-deco2", "obj-decoml", "obj-defcells"]
+                + LAM_FORMS,
+                "name": NAMES, "indent": ["0", "4"],
                 "doc": ["none", "one", "multi", "quote", "raw"],
                 "comment": ["none", "lead", "defline", "lastline", "after"],
-                "body": BODIES, "params": PARAMS, "form": FORMS, "docs": DOC_MENU_QUICK}
-    return {"name": NAMES, "indent": INDENTS, "doc": DOCSTRINGS, "comment": COMMENTS, "body": BODIES,
-            "params": PARAMS, "form": FORMS, "docs": DOC_MENU_ALL}
+                "docs": DOC_MENU_QUICK,
+                "def_params": ["p1", "pa"], "lam_params": ["p1", "p2"],
+                "def_body": ["multi", "oneline", "ndef", "nclass", "comp", "paren"], "lam_body": LAM_BODIES}
+    return {"form": FORMS, "name": NAMES, "indent": INDENTS, "doc": DOCSTRINGS,
+            "comment": COMMENTS, "docs": DOC_MENU_ALL,
+            "def_params": PARAMS, "lam_params": PARAMS, "def_body": BODIES, "lam_body": BODIES}
 
 
 def work_items(tier, seed):
-    """One item = (form, name mode, parameters, indentation); it enumerates docstring x comment x body."""
+    """One item = (form, name mode, parameters, indentation, docstring); it enumerates comment x body.
+
+    Items whose every text is outside the grammar (lambda forms with a name mode other than the
+    first, annotated lambdas, source-only indentation kinds for file objects) are still emitted so
+    that the skipped combinations are counted by the run itself.
+    """
     D = tier_dims(tier)
     items = []
     for form in D["form"]:
+        menu = D["lam_params"] if _is_lambda_form(form) else D["def_params"]
         for name in D["name"]:
-            for params in D["params"]:
+            for params in menu:
                 for ind in D["indent"]:
-                    items.append({"form": form, "name": name, "params": params, "indent": ind})
+                    for doc in D["doc"]:
+                        items.append({"form": form, "name": name, "params": params, "indent": ind, "doc": doc})
     return items
 
 
@@ -711,8 +723,10 @@ def run_item(item, tier):
     unsupported = []
     tmpdir = tempfile.mkdtemp(prefix="c20_")
     try:
-        for doc, comment, body in itertools.product(D["doc"], D["comment"], D["body"]):
-            case = dict(item, doc=doc, comment=comment, body=body)
+        bodies = D["lam_body"] if _is_lambda_form(item["form"]) else D["def_body"]
+        doc = item["doc"]
+        for comment, body in itertools.product(D["comment"], bodies):
+            case = dict(item, comment=comment, body=body)
             counts["combinations"] += 1
             try:
                 T = build(case)
@@ -731,8 +745,9 @@ def run_item(item, tier):
                 continue
             if status == "unsupported":
                 counts["unsupported"] += 1
-                if len(unsupported) < 3:
-                    unsupported.append(case)
+                tag = "%s/%s" % (case["form"], case["body"])
+                if tag not in unsupported:
+                    unsupported.append(tag)
                 continue
             counts["texts"] += 1
             counts["cell_evaluations"] += nev
@@ -762,36 +777,87 @@ def run_item(item, tier):
     counts["clauses_violated_in_item"] = len(out)
     extra = {"skip_kinds": sorted(skip_kinds)}
     if unsupported:
-        extra["unsupported_examples"] = unsupported
+        extra["unsupported_form_body"] = unsupported
     return {"counts": counts, "outcomes": sorted(outcomes), "violations": out, "samples": samples, "extra": extra}
 
 
+_MEMO = {}
+
+
 def check_case(case):
-    case = dict(case)
-    only = case.pop("check", None)
-    docs = DOC_MENU_ALL
-    if only is not None and only.startswith("doc:"):
-        docs = [only[4:]]
-    elif only is not None:
-        docs = []
-    tmpdir = tempfile.mkdtemp(prefix="c20_")
-    try:
-        status, vs, _, _ = check_text(case, tmpdir, docs, only=only)
-    finally:
-        shutil.rmtree(tmpdir, ignore_errors=True)
-    return vs
+    """Re-execute one case (all clauses, or only the clause group named by case['check'])."""
+    key = json.dumps(case, sort_keys=True)
+    hit = _MEMO.get(key)
+    if hit is None:
+        c = dict(case)
+        only = c.pop("check", None)
+        docs = DOC_MENU_ALL
+        if only is not None and only.startswith("doc:"):
+            docs = [only[4:]]
+        elif only is not None:
+            docs = []
+        tmpdir = tempfile.mkdtemp(prefix="c20_")
+        try:
+            status, hit, _, _ = check_text(c, tmpdir, docs, only=only)
+        finally:
+            shutil.rmtree(tmpdir, ignore_errors=True)
+        if len(_MEMO) > 20000:
+            _MEMO.clear()
+        _MEMO[key] = hit
+    return [dict(v, case=dict(v["case"])) for v in hit]
+
+
+def _static_class(case):
+    """What a shrink step must preserve for the clause name to stay the same (statically known)."""
+    chk = case.get("check") or ""
+    if chk.startswith("doc:"):
+        return layout_class(case)
+    if chk == "rename":
+        return "lambda" if _is_lambda_form(case["form"]) else "def"
+    return FAMILY[case["form"]]
 
 
 def shrink_candidates(case):
-    """Lower one dimension at a time towards its simplest value (simplest first)."""
+    """Smaller cases, most aggressive first: everything simplest, all but one / two dimensions
+    simplest, then one dimension lowered at a time.  Deterministic; only ever lowers dimensions."""
     lam = _is_lambda_form(case["form"])
+    cls = _static_class(case)
+    low = {k: (vals[0] if not (k == "form" and lam) else LAM_FORMS[0]) for k, vals in DIMS}
+    high = [k for k, vals in DIMS if case[k] != low[k]]
+    seen = {json.dumps(case, sort_keys=True)}
+
+    def emit(c):
+        key = json.dumps(c, sort_keys=True)
+        if key in seen:
+            return False
+        seen.add(key)
+        try:
+            if _static_class(c) != cls:
+                return False
+            build({k: v for k, v in c.items() if k != "check"})
+        except Skip:
+            return False
+        return True
+
+    for keep in range(0, 3):
+        if keep >= len(high):
+            break
+        for kept in itertools.combinations(high, keep):
+            c = dict(case)
+            for k in high:
+                if k not in kept:
+                    c[k] = low[k]
+            if emit(c):
+                yield c
     for k, vals in DIMS:
         cur = vals.index(case[k])
         for i in range(cur):
             v = vals[i]
             if k == "form" and _is_lambda_form(v) != lam:
                 continue
-            yield dict(case, **{k: v})
+            c = dict(case, **{k: v})
+            if emit(c):
+                yield c
 
 
 def script(case):
@@ -865,21 +931,25 @@ def script(case):
 def coverage(agg, tier):
     c = agg["counts"]
     D = tier_dims(tier)
+    dims = {k: D[k] for k in ("form", "name", "def_params", "lam_params", "doc", "comment", "def_body", "lam_body",
+                              "indent", "docs")}
     return {
         "evaluations": c.get("texts", 0),
         "distinct_nontrivial": len(agg["outcomes"]),
-        "rule": "full cross product form(%d) x name mode(%d) x parameters(%d) x docstring(%d) x comment(%d) x body(%d) "
-                "x indentation(%d) = %d combinations; combinations outside the grammar (lambda with docstring / "
-                "annotations / statement body, source-only indentation kinds for file objects, ...), duplicate texts, "
-                "texts CPython rejects and forms modelx rejects with its explicit 'unsupported' ValueError are skipped "
-                "and counted; every remaining text is captured by the real modelx from a source string or from a "
-                "function object defined in a real temporary module file and judged by capture / behaves / "
-                "self-contained / idempotent / rename-inert / doc-inert (%d replacement docs).  evaluations = texts "
-                "checked; a text is non-trivial when its cells was created and its formula executed for every "
-                "argument tuple; distinct_nontrivial = number of distinct (captured source, values, parameters) "
-                "digests among the non-trivial texts" % (
-                    len(D["form"]), len(D["name"]), len(D["params"]), len(D["doc"]), len(D["comment"]),
-                    len(D["body"]), len(D["indent"]), c.get("combinations", 0), len(D["docs"])),
+        "rule": "full cross product form x cells-name mode x parameters x docstring x comment position x body x "
+                "indentation over the menus listed under 'dimensions' (def forms use def_params/def_body, lambda "
+                "forms lam_params/lam_body): %d combinations enumerated, none sampled.  Combinations outside the "
+                "grammar (lambda with a docstring / annotations / statement body / second name mode, comment kinds "
+                "that need a block body, source-only indentation kinds for file objects), duplicate texts, texts "
+                "CPython itself rejects (a column-0 comment inside an indented source string) and forms modelx "
+                "rejects up front with its explicit ValueError (a lambda object with a second lambda on the same "
+                "line) are skipped and counted under 'skipped'.  Every remaining text is captured by the real modelx "
+                "- from a source string, or from a function / lambda object defined in a real temporary module file "
+                "- and judged by the clauses capture / behaves / self-contained / idempotent / rename-inert / "
+                "doc-inert (%d replacement docs, each on a freshly captured cells).  evaluations = texts checked; "
+                "a text is non-trivial when its cells was created and its formula was executed for every argument "
+                "tuple; distinct_nontrivial = number of distinct (captured formula.source, values, parameters) "
+                "digests among the non-trivial texts (measured)" % (c.get("combinations", 0), len(D["docs"])),
         "exhaustive": True,
         "combinations": c.get("combinations", 0),
         "texts_checked": c.get("texts", 0),
@@ -888,7 +958,7 @@ def coverage(agg, tier):
         "skipped": {k: c.get(k, 0) for k in ("skipped_not_in_grammar", "duplicate_text", "invalid_python",
                                              "unsupported")},
         "violating_texts": c.get("violating_texts", 0),
-        "dimensions": {k: D[k] for k in ("form", "name", "params", "doc", "comment", "body", "indent", "docs")},
+        "dimensions": dims,
     }
 
 
